@@ -43,7 +43,7 @@ def pairOK (cj ck : CFormat) : Bool :=
   | none => false
   | some r =>
     (symLayout ck.layout).all (fun sh => !findSG cj.guard r false sh) ||
-    (dottedLayout cj.layout && (symLayout ck.layout).all (fun sh => !findS rxDotted sh)) ||
+    (dottedLayout cj.layout && cj.layout.supported && (symLayout ck.layout).all (fun sh => !findS rxDotted sh)) ||
     (cj.noDate == ck.noDate && cj.hasYear == ck.hasYear && cj.layout.tail == ck.layout.tail && cj.layout.supported &&
       twinItems cj.layout.items ck.layout.items ck.layout.tail &&
       (symLayout ck.layout).all (fun sh => !findSG cj.guard r false sh || ownMatchD r sh))
@@ -316,5 +316,204 @@ theorem formatParse_dotted_err {adj : Adjust} {cj : CFormat} {now : Now} {r : Rx
         rw [e, List.append_assoc] at hfind
         exact this hfind
       · cases hdot
+
+/-! ## `Format.Parse`'s defaulting never refuses a projected instant -/
+
+structure ZInv (i : XInst) (f : F) : Prop where
+  zn : f.zoneName = none ∨ f.zoneName = some i.zname
+
+theorem ZInv.fold {i : XInst} : ∀ (items : List (Bytes × Std)) {f : F}, ZInv i f → ZInv i (projectFX items i f)
+  | [], _, h => h
+  | it :: rest, f, h => by
+    simp only [projectFX, List.foldl_cons]
+    refine ZInv.fold rest ?_
+    obtain ⟨hz⟩ := h
+    cases hs : it.2 <;> simp only [setStdX] <;> first
+      | exact ⟨hz⟩
+      | (split <;> first | exact ⟨hz⟩ | exact ⟨Or.inr rfl⟩)
+
+/-- a fabricated zone of a projected instant has display offset 0 (the abbreviation has three letters) -/
+def zoneDispZero (c : Civil) : Prop := match c.zone with | .named _ d => d = 0 | _ => True
+
+/-- the zone `finish` resolves -/
+def finishZone (f : F) : Zone :=
+  if f.zUTC then .utc
+  else match f.zoneOffset with
+    | some o => .offset o
+    | none =>
+      match f.zoneName with
+      | some n =>
+        if n.length > 3 && hasPrefix n bGMT then .named n (((atoi (n.drop 3)).getD 0) * 3600) else .named n 0
+      | none => .dflt
+
+theorem finish_zone {i : XInst} (hi : ValidX i) {f : F} (h : XInv i f) {c : Civil} (hc : finish f = .ok c) : c.zone = finishZone f := by
+  obtain ⟨_, _, hm1, hm12, hd1, hdd, _⟩ := hi
+  obtain ⟨hy, hm, hd⟩ := h
+  have b1 := daysIn_bounds i.month i.year
+  have b2 := daysIn_pivot i.month i.year
+  have key : ¬ ((if f.day < 0 then 1 else f.day) < 1 ∨
+      (if f.day < 0 then 1 else f.day) > daysIn (if f.month < 0 then 1 else f.month) f.year) := by
+    rcases hd with hd | hd
+    · have b := daysIn_bounds (if f.month < 0 then 1 else f.month) f.year
+      simp only [hd]; simp; omega
+    · rw [hd]
+      have hdn : ¬ ((i.day : Int) < 0) := by omega
+      simp only [hdn, if_false]
+      rcases hm with hm | hm
+      · simp only [hm]; simp [daysIn_one]; omega
+      · rw [hm]
+        have hmn : ¬ ((i.month : Int) < 0) := by omega
+        simp only [hmn, if_false]
+        rcases hy with hy | hy | hy
+        · rw [hy]; omega
+        · rw [hy]; omega
+        · rw [hy]; omega
+  simp only [finish] at hc
+  rw [if_neg (by simpa using key)] at hc
+  cases hc
+  rfl
+
+theorem projectX_zone {L : Layout} {i : XInst} (hi : ValidX i) {c : Civil} (h : projectX L i = .ok c) : zoneDispZero c := by
+  obtain ⟨a, b, c', hz, _⟩ := hi.2.2.2.2.2.2.2.2.2.2.2.2.2.2.2
+  have hinv := (ZInv.fold (i := i) L.items (f := {}) ⟨Or.inl rfl⟩).zn
+  have hzone := finish_zone hi (XInv.fold L.items ⟨Or.inl rfl, Or.inl rfl, Or.inl rfl⟩) h
+  simp only [zoneDispZero, hzone, finishZone]
+  split
+  · rename_i name d heq
+    split at heq
+    · cases heq
+    · split at heq
+      · cases heq
+      · split at heq
+        · rename_i n hn
+          rw [hn] at hinv
+          rcases hinv with hinv | hinv
+          · cases hinv
+          · have hlen : n.length = 3 := by
+              have : n = i.zname := Option.some.inj hinv
+              rw [this, hz]; rfl
+            have : (decide (n.length > 3) && hasPrefix n bGMT) = false := by simp [hlen]
+            simp only [this, Bool.false_eq_true, if_false, Zone.named.injEq] at heq
+            exact heq.2.symm
+        · cases heq
+  · trivial
+
+/-- the instant a claimed text denotes after `Format.Parse`'s defaulting: today for a time-only format, the current (or
+previous) year for a year-less one -/
+def adjAll (adj : Adjust) (cf : CFormat) (now : Now) (c : Civil) : Civil :=
+  if cf.noDate then (if adj.date then adjustDate now c else c)
+  else if !cf.hasYear then (if adj.year then adjustYear now c else c)
+  else c
+
+theorem adjustRes_all {adj : Adjust} {cf : CFormat} {now : Now} {c : Civil} (hz : zoneDispZero c) :
+    adjustRes adj cf now c = .ok (adjAll adj cf now c) := by
+  simp only [adjustRes, adjAll]
+  split
+  · split <;> rfl
+  · split
+    · split
+      · simp only [zoneDispZero] at hz
+        split
+        · rename_i hzone
+          rw [hzone] at hz
+          simp only at hz
+          subst hz
+          simp
+        · rfl
+      · rfl
+    · rfl
+
+theorem adjustRes_congr {adj : Adjust} {cj ck : CFormat} {now : Now} {c : Civil} (h1 : cj.noDate = ck.noDate) (h2 : cj.hasYear = ck.hasYear) :
+    adjustRes adj cj now c = adjustRes adj ck now c := by
+  simp only [adjustRes, h1, h2]
+
+/-! ## the list -/
+
+theorem parseFrom_agree {adj : Adjust} {now : Now} {buf : Bytes} {c : Civil} :
+    ∀ (fmts : List CFormat) (i0 k : Nat) (ck : CFormat), fmts[k]? = some ck →
+      (∀ j, j < k → ∀ cj, fmts[j]? = some cj → formatParse adj cj now buf = .err ∨ formatParse adj cj now buf = .ok c) →
+      formatParse adj ck now buf = .ok c →
+      ∃ j', j' ≤ k ∧ parseFrom adj now buf i0 fmts = .ok (i0 + j') c
+  | [], _, _, _, h, _, _ => by simp at h
+  | cf :: rest, i0, 0, ck, h, _, hok => by
+    simp at h; subst h
+    exact ⟨0, Nat.le_refl 0, by simp [parseFrom, hok]⟩
+  | cf :: rest, i0, k + 1, ck, h, hearlier, hok => by
+    rcases hearlier 0 (by omega) cf (by simp) with h0 | h0
+    · obtain ⟨j', hj', hp⟩ := parseFrom_agree rest (i0 + 1) k ck (by simpa using h)
+        (fun j hj cj hcj => hearlier (j + 1) (by omega) cj (by simpa using hcj)) hok
+      refine ⟨j' + 1, by omega, ?_⟩
+      simp only [parseFrom, h0, hp]
+      congr 1; omega
+    · exact ⟨0, by omega, by simp [parseFrom, h0]⟩
+
+/-- **first match, in general**: if every earlier format has one of the three certificates against format `k`, the list's
+answer for the text of any valid instant in format `k` is exactly the fields format `k` carries — claimed by format `k` or
+by an earlier twin that reads the same fields -/
+theorem first_match_agree {adj : Adjust} {now : Now} {fmts : List CFormat} {k : Nat} {ck : CFormat} (hk : fmts[k]? = some ck)
+    (hidx : idxOK fmts k = true) (hown : ownOK ck = true) (i : XInst) (hi : ValidX i) :
+    ∃ txt c j', renderLayout ck.layout i = some txt ∧ projectX ck.layout i = .ok c ∧ j' ≤ k ∧
+      parseFirst adj fmts now txt = .ok j' (adjAll adj ck now c) := by
+  have hwf : ParseWF ck.layout = true := by
+    simp only [ownOK, Bool.and_eq_true] at hown; exact hown.1
+  obtain ⟨txt, ht, hp⟩ := render_parse_all ck.layout hwf i hi
+  obtain ⟨c, hc⟩ := projectX_ok ck.layout i hi
+  obtain ⟨r, hr, _, hf⟩ := own_regexp_whole hown hi ht
+  obtain ⟨sh, hsh, hs⟩ := renderLayout_shape ck.layout i hi txt ht
+  have hz := projectX_zone hi hc
+  have hfp : formatParse adj ck now txt = .ok (adjAll adj ck now c) := by
+    rw [formatParse_of_find hr hf (by rw [hp, hc]), adjustRes_all hz]
+  refine ⟨txt, c, ?_⟩
+  have hearlier : ∀ j, j < k → ∀ cj, fmts[j]? = some cj →
+      formatParse adj cj now txt = .err ∨ formatParse adj cj now txt = .ok (adjAll adj ck now c) := by
+    intro j hj cj hcj
+    simp only [idxOK, hk, List.all_eq_true, List.mem_range] at hidx
+    have hpair := hidx j hj
+    rw [hcj] at hpair
+    simp only [pairOK] at hpair
+    cases hrj : cj.rx with
+    | none => rw [hrj] at hpair; simp at hpair
+    | some rj =>
+      rw [hrj] at hpair
+      simp only [Bool.or_eq_true] at hpair
+      rcases hpair with (hclean | hdot) | htwin
+      · -- nothing of `j` matches anywhere
+        have hns : findSG cj.guard rj false sh = false := by
+          have := List.all_eq_true.mp hclean sh hsh
+          simpa using this
+        exact Or.inl (formatParse_err_of_find hrj (findFrom_none_of_findSG cj.guard rj txt sh false false hs (fun h => h) hns))
+      · -- `j` is a dotted format
+        simp only [Bool.and_eq_true] at hdot
+        have hno : findS rxDotted sh = false := by
+          have := List.all_eq_true.mp hdot.2 sh hsh
+          simpa using this
+        exact Or.inl (formatParse_dotted_err hrj hdot.1.1 hdot.1.2 hs hno)
+      · -- `j` is a twin
+        simp only [Bool.and_eq_true, beq_iff_eq] at htwin
+        obtain ⟨⟨⟨⟨⟨hnd, hhy⟩, htail⟩, hsup⟩, htw⟩, hsh2⟩ := htwin
+        have hone := List.all_eq_true.mp hsh2 sh hsh
+        simp only [Bool.or_eq_true, Bool.not_eq_true'] at hone
+        rcases hone with hns | hwhole
+        · exact Or.inl (formatParse_err_of_find hrj (findFrom_none_of_findSG cj.guard rj txt sh false false hs (fun h => h) hns))
+        · have hm := matchAt_whole_of_ownMatchD hs hwhole
+          have hfj : findG cj.guard rj txt = some txt := findG_of_matchAt hm
+          obtain ⟨body, hb, hpt⟩ := parseItems_twin ck.layout.tail i hi cj.layout.items ck.layout.items htw
+          have htxt : txt = body ++ ck.layout.tail := by
+            simp only [renderLayout, hb, Option.map_some, Option.some.injEq] at ht
+            exact ht.symm
+          rcases hpt {} with hnone | hsome
+          · refine Or.inl ?_
+            have hpl : parseLayout cj.layout txt = .err := by
+              simp only [parseLayout, hsup, Bool.not_true, Bool.false_eq_true, if_false, htail]
+              rw [htxt, hnone]
+            simp only [formatParse, hrj, hfj, hpl]
+          · refine Or.inr ?_
+            have hpl : parseLayout cj.layout txt = .ok c := by
+              simp only [parseLayout, hsup, Bool.not_true, Bool.false_eq_true, if_false, htail]
+              rw [htxt, hsome]
+              exact hc
+            rw [formatParse_of_find hrj hfj hpl, adjustRes_congr hnd hhy, adjustRes_all hz]
+  obtain ⟨j', hj', hpf⟩ := parseFrom_agree (adj := adj) (now := now) (buf := txt) fmts 0 k ck hk hearlier hfp
+  exact ⟨j', ht, hc, hj', by simpa [parseFirst] using hpf⟩
 
 end Logrange.Date
